@@ -11,7 +11,7 @@ def run(ctx):
     if not ctx.translate():
         return
     ok = ctx.prove(MODULES, needs_gen=["KernelsCL"])
-    n = 4000 if ctx.thorough() else 600
+    n = 12000 if ctx.thorough() else 600
     mism = ctx.kernel_diff("dec,cl", n)
     if mism:
         ctx.fail("correspondence", "kernel differential (Go vs regenerated Lean)", str(mism[:3]), replay={"kernel_mismatches": mism[:20]})
